@@ -357,10 +357,13 @@ impl<T> NCReadStream<T> {
     /// Return true if there is nothing more ever to read from the stream.
     #[must_use]
     pub fn eof(&self) -> bool {
-        if !self.q.0.lock().unwrap().is_empty() {
+        // Liveness first (like `ReadStream::eof`): a writer that pushes its
+        // last packet and goes away between the two checks must not make
+        // the queued packet disappear.
+        if Arc::strong_count(&self.q) != 1 {
             false
         } else {
-            Arc::strong_count(&self.q) == 1
+            self.q.0.lock().unwrap().is_empty()
         }
     }
 }
